@@ -59,6 +59,10 @@ OWN = [
     ["name d1", "version 1.0", "type tdm (temporal_modes=%(i)s, copies=%(i)s)", "", "int array p0 =", "    %(i)s, %(i)s, %(i)s", "float array p1 =", "    %(f)s, %(f)s, %(f)s",
      "BSgate(p0, %(f)s) | [%(m)s, %(m)s]", "Rgate(p1) | %(m)s", "MeasureHomodyne(phi=p0) | %(m)s"],
     ["name d2", "version 1.0", "type tdm (temporal_modes=2)", "", "float array p12 =", "    %(f)s, %(f)s", "Rgate(p12) | %(m)s", "Dgate({r}, p12) | %(m)s"],
+    # parameter names that also occur inside printed numbers / function names, next to coefficients SymPy prints in exponent form
+    ["name n1", "version 1.0", "", "Dgate(0.00001*{e}, 0.5) | %(m)s", "Sgate(2.5e+20*{E}-{j}, k=1e-7*{I}) | %(m)s"],
+    ["name n2", "version 1.0", "", "Rgate(1E-9*{e}*{e1}+{e_}, {x}*1e300) | %(m)s", "Dgate(sqrt({s})*{q}, k=exp({expo})-{sinus}*3e-12) | %(m)s"],
+    ["name n3", "version 1.0", "", "MeasureX | 0", "Dgate(0.00001*q0, 4.5e17*q0+1) | 1", "Rgate({e}/1e5) | %(m)s"],
     # other spellings / other types with p-named arrays: whatever the loader does with them must survive the round trip
     ["name d3", "version 1.0", "type TDM (temporal_modes=2)", "", "float array p0 =", "    %(f)s, %(f)s", "int array p1 =", "    %(i)s, %(i)s", "Rgate(p0) | %(m)s", "Dgate(%(f)s, phi=p1) | %(m)s"],
     ["name d4", "version 1.0", "type Tdm (copies=%(i)s)", "", "float array p3 =", "    %(f)s, %(f)s", "Rgate(p3, k=p3) | %(m)s"],
